@@ -105,6 +105,47 @@ Theorem C03_reported_reaction_is_support_force : forall (eps : Q) (u : list Q) (
 Proof. exact reported_reaction_is_support_force. Qed.
 Print Assumptions C03_reported_reaction_is_support_force.
 
+(* ... and at ANY joint: a bar end either carries the node's number in a component (its link
+   constrains it) or a number of its own at which its support contribution vanishes - which is what
+   that number's own row of the system says (C03_own_number_carries_no_support) - while the node's
+   number does not occur in that bar.  Rigid, hinged, sliding ends in any mix. *)
+Theorem C03_reported_reaction_is_support_force_at_any_joint : forall (eps : Q) (u : list Q) (bars : list (pbar Q)) (N : nat) (dN : dof3),
+  (forall p, In p bars -> length (pb_nodes p) = length (pb_dofs p) /\ meets_gen u p N dN) ->
+  tor_eqQ (reaction_at eps bars u N)
+          (support_force u bars (fst (fst dN)), support_force u bars (snd (fst dN)), support_force u bars (snd dN)).
+Proof. exact reported_reaction_is_support_force_gen. Qed.
+Print Assumptions C03_reported_reaction_is_support_force_at_any_joint.
+
+Theorem C03_own_number_carries_no_support : forall n sup u B1 p B2 e,
+  let bars := B1 ++ p :: B2 in
+  Forall (nums_below n) (all_slices bars) -> solves n bars sup u -> (e < n)%nat ->
+  is_supported sup e = false -> row_empty (all_contribs bars) e = false ->
+  ~ In e (bars_numbers B1) -> ~ In e (bars_numbers B2) ->
+  bar_support u p e == 0.
+Proof. exact own_number_no_support. Qed.
+Print Assumptions C03_own_number_carries_no_support.
+
+(* THE PROPERTY, for the reported reactions.  nodes: the structural nodes with their external
+   constraint and their three numbers.  If each node's reported reaction is the support force at its
+   numbers (the two theorems above) and a component its constraint leaves free carries no support
+   force (C03_no_support_force_at_free_numbers), then the reactions solve reports and ALL assembled
+   nodal loads balance: in x (w_tx), in y (w_ty) and in moment about any point (w_rot px py), where
+   node_work w r d = w(dx number) r.fx + w(dy number) r.fy + w(rz number) r.mz. *)
+Theorem C03_reported_reactions_in_global_equilibrium : forall (eps : Q) n u bars (lab : nat -> label) (nodes : list (nat * link * dof3)),
+  let sup := supported_of (map (fun x => (snd (fst x), snd x)) nodes) in
+  NoDup sup -> Forall (fun i => (i < n)%nat) sup ->
+  Forall (nums_below n) (all_slices bars) ->
+  Forall (fun t => (fst t < n)%nat) (all_fterms bars) ->
+  solves n bars sup u ->
+  (forall i, (i < n)%nat -> row_empty (all_contribs bars) i = true -> fraw_at (all_fterms bars) i == 0) ->
+  Forall (fun sl => no_tiny (s_k sl) /\ labelled lab sl /\ ~ slice_len (s_b sl) (s_na sl) (s_nb sl) == 0 /\
+                    b_c (s_b sl) * b_c (s_b sl) + b_s (s_b sl) * b_s (s_b sl) == 1) (all_slices bars) ->
+  Forall (node_reaction_ok eps u bars) nodes ->
+  forall w, (w = w_tx lab \/ w = w_ty lab \/ exists px py, w = w_rot lab px py) ->
+  qsum (map (fun x => node_work w (reaction_at eps bars u (fst (fst x))) (snd x)) nodes) + wsum w (all_fterms bars) == 0.
+Proof. exact reported_reactions_in_global_equilibrium. Qed.
+Print Assumptions C03_reported_reactions_in_global_equilibrium.
+
 (* no force along a direction the support leaves free: an unsupported number with a row has no
    support force at all *)
 Theorem C03_no_support_force_at_free_numbers : forall n bars sup u i,
@@ -188,4 +229,57 @@ Proof.
   split; [vm_compute; discriminate|].
   split; [apply no_tiny_b_sound; vm_compute; reflexivity|].
   vm_compute. repeat split.
+Qed.
+
+(* A joint with a released bar end: the same beam, clamped at node 0 and HINGED to a clamped node 1
+   (a propped cantilever).  The bar's end node carries (6, 7, 8): dx and dy are the node's numbers, the
+   rotation 8 is the bar end's own; the node's rotation number 9 is referred to by no bar.  u solves the
+   ten equations exactly; the reaction solve reports at node 1 is (0, -5/16, 0). *)
+Definition ex2_bars : list (pbar Q) :=
+  [ {| pb_bar := {| b_n1 := 0; b_n2 := 1; b_l1 := rigid; b_l2 := {| lk_dx := true; lk_dy := true; lk_rz := false |};
+                    b_x1 := 0; b_y1 := 0; b_x2 := 2; b_y2 := 0; b_L := 2; b_c := 1; b_s := 0;
+                    b_E := 1; b_A := 1; b_I := 1; b_S := 1; b_rho := 0; b_cl := []; b_dl := [] |};
+       pb_nodes := [ex_nd 0 0 (0, 0, 0); ex_nd (1 # 2) 1 (0, 1, 0); ex_nd 1 2 (0, 0, 0)];
+       pb_dofs := [(0, 1, 2)%nat; (3, 4, 5)%nat; (6, 7, 8)%nat] |} ].
+Definition ex2_u : list Q := [0; 0; 0; 0; 7 # 96; 1 # 32; 0; 0; - (1 # 8); 0].
+Definition ex2_sup : list nat := [0; 1; 2; 6; 7; 9]%nat.
+
+Example C03_released_joint_hypotheses_satisfiable :
+  solves 10 ex2_bars ex2_sup ex2_u /\
+  (forall p, In p ex2_bars -> length (pb_nodes p) = length (pb_dofs p) /\ meets_gen ex2_u p 1%nat (6, 7, 9)%nat) /\
+  map (fun i => Qred (support_force ex2_u ex2_bars i)) [6; 7; 9]%nat = [0; - (5 # 16); 0].
+Proof.
+  split.
+  { intros i Hi. do 10 (destruct i as [|i]; [vm_compute; reflexivity|]). exfalso; lia. }
+  split; [| vm_compute; reflexivity].
+  intros p [<- | []]. split; [reflexivity|]. right. left. split; [discriminate|]. split; [reflexivity|].
+  eexists _, _, _, _, _, _, _. split; [reflexivity|]. split; [reflexivity|].
+  split; [repeat constructor; cbn; intuition discriminate|].
+  split.
+  { intros k Hk. assert (Hk' : (k = 0 \/ k = 1 \/ k = 2)%nat) by lia.
+    destruct Hk' as [-> | [-> | ->]]; [left; reflexivity | left; reflexivity | right; split; vm_compute; reflexivity]. }
+  split.
+  { intros Q0 HQ i Hi.
+    assert (EQ : Q0 = [(ex_nd 0 0 (0, 0, 0), (0, 1, 2)%nat)]).
+    { destruct Q0 as [|x [|y [|z Q']]]; cbn in HQ; try discriminate.
+      - injection HQ as <-. reflexivity.
+      - injection HQ as _ _ HQ. destruct Q'; discriminate. }
+    subst Q0. cbn in Hi |- *. intuition (subst; discriminate). }
+  split; [unfold good_bar; cbn; repeat split; discriminate|].
+  split; [vm_compute; discriminate|].
+  split; [apply no_tiny_b_sound; vm_compute; reflexivity|].
+  vm_compute. repeat split.
+Qed.
+
+(* the cantilever once more: its one supported node meets node_reaction_ok, so the headline theorem
+   applies to it as it stands *)
+Example C03_reported_balance_hypotheses_satisfiable :
+  Forall (node_reaction_ok (1 # 100000) ex_u ex_bars) [(0%nat, rigid, (0, 1, 2)%nat)] /\
+  supported_of (map (fun x : nat * link * dof3 => (snd (fst x), snd x)) [(0%nat, rigid, (0, 1, 2)%nat)]) = ex_sup.
+Proof.
+  split; [| reflexivity].
+  constructor; [| constructor]. split.
+  - exact (C03_reported_reaction_is_support_force (1 # 100000) ex_u ex_bars 0%nat (0, 1, 2)%nat
+             (proj1 C03_reported_reaction_hypotheses_satisfiable) (proj2 C03_reported_reaction_hypotheses_satisfiable)).
+  - cbn [fst snd rigid lk_dx lk_dy lk_rz]. repeat split; discriminate.
 Qed.
